@@ -61,4 +61,53 @@ Verdict(T, Dft, S) ==         \* T, Dft: functions on the set S of mentioned sta
   IF \E s \in S : StateMustReject(T[s], Dft[s], StateReps(T[s])) THEN "MustReject"
   ELSE IF \A s \in S : StateMustAccept(T[s], Dft[s], StateReps(T[s])) THEN "MustAccept"
   ELSE "Either"
+
+-----------------------------------------------------------------------------
+(* Transcription of build() as implemented (automata.rs): per state,        *)
+(*   validate the transitions AS GIVEN (disjoint labels; default present     *)
+(*   iff some character is uncovered), then clean up -- choose the Boyer-    *)
+(*   Moore majority target as default when none is declared and it has at    *)
+(*   least half of the transitions, drop the transitions into the default -- *)
+(*   and route by the remaining transitions, else the default.               *)
+(* MC_Builder checks, on every generated specification, that this algorithm  *)
+(* rejects every MustReject spec, accepts every MustAccept spec and, when it *)
+(* accepts, routes every character exactly as SpecDelta says.  With the two  *)
+(* phases in the other order (clean-up first: the defect F7) the same        *)
+(* invariants fail in the design, e.g. on  new(0); add(0,[0,0],1).           *)
+RECURSIVE MajFold(_, _, _, _), CountTarget(_, _, _)
+MajFold(tr, k, maj, cnt) ==         \* first pass of Boyer-Moore over the targets tr[k..]
+  IF k > Len(tr) THEN maj
+  ELSE LET x == tr[k][2] IN
+       IF cnt = 0 THEN MajFold(tr, k + 1, x, 1)
+       ELSE IF x = maj THEN MajFold(tr, k + 1, maj, cnt + 1)
+       ELSE MajFold(tr, k + 1, maj, cnt - 1)
+CountTarget(tr, k, m) == IF k > Len(tr) THEN 0 ELSE (IF tr[k][2] = m THEN 1 ELSE 0) + CountTarget(tr, k + 1, m)
+ChooseDefault(tr, df) ==
+  IF df # NoDefault \/ tr = <<>> THEN df
+  ELSE LET m == MajFold(tr, 2, tr[1][2], 1) IN
+       IF CountTarget(tr, 1, m) >= Len(tr) \div 2 THEN <<m>> ELSE df
+RECURSIVE DropInto(_, _, _)
+DropInto(tr, k, t) == IF k > Len(tr) THEN <<>>
+                      ELSE (IF tr[k][2] = t THEN <<>> ELSE <<tr[k]>>) \o DropInto(tr, k + 1, t)
+Cleanup(tr, df) == LET d2 == ChooseDefault(tr, df) IN
+                   <<IF d2 = NoDefault THEN tr ELSE DropInto(tr, 1, d2[1]), d2>>
+\* the per-state checks of build(): "ok" or the error
+StateCheck(tr, df, D) ==
+  IF ~LabelsDisjoint(tr) THEN "NonDisjointCharSets"
+  ELSE IF df # NoDefault /\ ~Uncovered(tr, D) THEN "EmptyComplementaryClass"
+  ELSE IF df = NoDefault /\ Uncovered(tr, D) THEN "MissingDefaultSuccessor"
+  ELSE "ok"
+\* result of the algorithm for one state: <<verdict, transitions used, default used>>
+AlgoState(tr, df, D, validateFirst) ==
+  IF validateFirst
+  THEN LET v == StateCheck(tr, df, D) c == Cleanup(tr, df) IN <<v, c[1], c[2]>>
+  ELSE LET c == Cleanup(tr, df) IN <<StateCheck(c[1], c[2], D), c[1], c[2]>>
+AlgoDelta(res, x) == SpecDelta(res[2], res[3], x)
+AlgoRefinesSpec(T, Dft, S, Alphabet0, validateFirst) ==
+  LET r == [s \in S |-> AlgoState(T[s], Dft[s], Alphabet0, validateFirst)]
+      accepted == \A s \in S : r[s][1] = "ok"
+      v == Verdict(T, Dft, S)
+  IN /\ (v = "MustReject" => ~accepted)
+     /\ (v = "MustAccept" => accepted)
+     /\ accepted => \A s \in S : \A x \in Alphabet0 : AlgoDelta(r[s], x) = SpecDelta(T[s], Dft[s], x)
 =============================================================================
